@@ -35,7 +35,7 @@ def one(name):
         shutil.rmtree(tmp, ignore_errors=True)
 
 
-with ThreadPoolExecutor(4) as ex:
+with ThreadPoolExecutor(8) as ex:
     for name, fired in ex.map(one, names):
         mp = root / name / "meta.json"
         meta = json.load(open(mp))
